@@ -83,6 +83,12 @@ def gen_cases(tier, seed):
             base["via_handle"] = True
         base["steps"] = steps
         cases.append(base)
+    # --- datasets whose rows carry a two-level index, stored in batches that are slices of one frame (all batches share the levels of
+    #     the index, each uses a part of their labels): the situation in which a multi-indexed dataset can be appended to
+    for i in range(24 if tier == "quick" else 300):
+        cases.append({"id": "MI/%d/%d" % (seed, i), "multi_index_batches": True, "level_kind": ["str", "int", "dt"][i % 3], "n": [9, 15, 60, 400][(i // 3) % 4],
+                      "nbatch": 2 + i % 3, "scheme": ["simple", "hive"][(i // 2) % 2], "rgo": [None, 4][(i // 5) % 2], "via_handle": bool(i % 4 == 3),
+                      "frame": {"cols": []}, "opts": {}})
     return cases
 
 
@@ -94,7 +100,80 @@ def footer_start(path):
     return end - 8 - n
 
 
+def run_multi_index(case):
+    """Batches that are consecutive slices of one (level x level) indexed frame: first write + appends, then the whole frame must read back,
+    and the bytes written before each append must still be there."""
+    import pandas as pd
+    import fastparquet
+    from fastparquet.writer import reset_row_idx
+    from vf.props import common as C
+    counters = {}
+    res = {"features": [], "nontrivial": False, "failures": [], "counters": counters}
+    scheme = case["scheme"]
+    path = C.fresh_path(".parq" if scheme == "simple" else "")
+    try:
+        lv = {"str": ["s%d" % i for i in range(5)], "int": list(range(10, 15)), "dt": list(pd.to_datetime(["2024-01-0%d" % (i + 1) for i in range(5)]))}[case["level_kind"]]
+        idx = pd.MultiIndex.from_product([lv, ["x", "y", "z"]], names=["a", "b"])
+        n = case["n"]
+        idx = idx[np.arange(n) % len(idx)]       # level-major order: a batch uses a few labels of the first level only
+        df = pd.DataFrame({"rid": np.arange(n, dtype="int64"), "v": np.arange(n, dtype="float64") / 4}, index=idx)
+        cuts = [round(j * n / case["nbatch"]) for j in range(case["nbatch"] + 1)]
+        batches = [df.iloc[cuts[j]:cuts[j + 1]] for j in range(case["nbatch"])]
+        ctx = {"scheme": scheme, "level_kind": case["level_kind"], "rows": n, "batches": [len(b) for b in batches], "via_handle": case["via_handle"]}
+        kw = {"file_scheme": scheme, **({"row_group_offsets": case["rgo"]} if case["rgo"] else {})}
+        fastparquet.write(path, batches[0], **kw)
+        pf = fastparquet.ParquetFile(path) if case["via_handle"] and scheme != "simple" else None
+        for j, b in enumerate(batches[1:]):
+            before = {}
+            if scheme == "simple":
+                with open(path, "rb") as f:
+                    before[path] = f.read()[:footer_start(path)]
+            else:
+                for nm in sorted(os.listdir(path)):
+                    if nm.endswith(".parquet"):
+                        with open(os.path.join(path, nm), "rb") as f:
+                            before[os.path.join(path, nm)] = f.read()
+            try:
+                if pf is not None:
+                    pf.write_row_groups(reset_row_idx(b), **({"row_group_offsets": case["rgo"]} if case["rgo"] else {}))
+                else:
+                    fastparquet.write(path, b, append=True, **kw)
+            except Exception as e:
+                res["failures"].append({"kind": "append_raised", "step": j + 1, **ctx, **C.exc_shape(e)})
+                break
+            for fn, old in before.items():
+                with open(fn, "rb") as f:
+                    if f.read()[:len(old)] != old:
+                        res["failures"].append({"kind": "bytes_before_the_append_changed", "file": os.path.basename(fn), "step": j + 1, **ctx})
+            whole = df.iloc[:cuts[j + 2]]
+            try:
+                got = fastparquet.ParquetFile(path).to_pandas()
+            except Exception as e:
+                res["failures"].append({"kind": "read_after_append_raised", "step": j + 1, **ctx, **C.exc_shape(e)})
+                break
+            g, e_ = got.reset_index(), whole.reset_index()
+            if list(g.columns) != list(e_.columns) or len(g) != len(e_):
+                res["failures"].append({"kind": "shape_after_append", "step": j + 1, "got": [list(map(str, g.columns)), len(g)], "expected": [list(map(str, e_.columns)), len(e_)], **ctx})
+                break
+            for c in e_.columns:
+                gl, el = [str(x) for x in g[c].astype(object).tolist()], [str(x) for x in e_[c].astype(object).tolist()]
+                if gl != el:
+                    bad = [k_ for k_, (x, y) in enumerate(zip(gl, el)) if x != y]
+                    res["failures"].append({"kind": "cells_after_append", "column": str(c), "step": j + 1, "n_bad": len(bad), "first_bad": bad[:4],
+                                            "expected": [el[k_] for k_ in bad[:3]], "got": [gl[k_] for k_ in bad[:3]], **ctx})
+            counters["appends_to_multi_indexed_datasets_verified"] = counters.get("appends_to_multi_indexed_datasets_verified", 0) + 1
+            counters["appends_verified"] = counters.get("appends_verified", 0) + 1
+        res["outcome"] = "ok"
+        res["nontrivial"] = True
+        res["features"] = [str(("multi_index", scheme, case["level_kind"], case["nbatch"], bool(case["rgo"]), case["via_handle"]))]
+        return res
+    finally:
+        C.cleanup(path)
+
+
 def run_case(case):
+    if case.get("multi_index_batches"):
+        return run_multi_index(case)
     import hashlib
     import pandas as pd
     import fastparquet
@@ -274,4 +353,4 @@ def run_case(case):
 
 
 def required(tier):
-    return {"appends_verified": 300, "prefix_hashes_compared": 80, "data_files_compared": 300, "audit_events": 500, "appends_with_reordered_columns": 30, "appends_through_a_kept_handle": 30, "reads_through_the_appending_handle": 60, "appends_with_a_coarser_time_unit": 8}
+    return {"appends_verified": 300, "prefix_hashes_compared": 80, "data_files_compared": 300, "audit_events": 500, "appends_with_reordered_columns": 30, "appends_through_a_kept_handle": 30, "reads_through_the_appending_handle": 60, "appends_with_a_coarser_time_unit": 8, "appends_to_multi_indexed_datasets_verified": 20}
